@@ -1,7 +1,8 @@
 import Arimaa.Props.C05
 
 /-!
-C20, engine side: how long the persistent history list of a reachable state is.  Together with
+History length (stated with C05's bookkeeping theorem, used by C20's argument; kept in the C05 group so
+that the proof closure of C20 stays the list model and the type inventory).  C20, engine side: how long the persistent history list of a reachable state is.  Together with
 `C20_loop_bounded` (Props/C20.lean: dropping, cloning and iterating a list of ANY length needs a
 constant number of frames) this is the model-level reason why the stack use of clone / drop / query
 does not grow with the game: the list grows by one node per capture-free turn and is the only
@@ -14,7 +15,7 @@ open GameState
 (a finished setup or a parsed position), the recorded hash history has exactly one entry per start
 of turn since the last capture — in particular never more entries than turns played plus one —
 and every forgotten turn start has strictly more pieces than the current board. -/
-theorem C20_engine_history_length (s0 : GameState) (h0 : StartOk s0) (as : List Action)
+theorem C05_history_length (s0 : GameState) (h0 : StartOk s0) (as : List Action)
     (ho : OfferedNR s0 as) :
     ∃ pp, (s0.run as).phase = .play pp ∧
       pp.hist.length ≤ (turnStarts s0 as).length ∧
@@ -28,7 +29,7 @@ theorem C20_engine_history_length (s0 : GameState) (h0 : StartOk s0) (as : List 
 /-- One action changes the history by at most one node: a step or pass either keeps the list,
 clears it (capture) or conses one entry (turn end) — a bounded number of list operations, none of
 which depends on the length of the list. -/
-theorem C20_history_step (s : GameState) (pp : PlayPhase) (hph : s.phase = .play pp) (a : Action)
+theorem C05_history_step (s : GameState) (pp : PlayPhase) (hph : s.phase = .play pp) (a : Action)
     (hmv : a = .pass ∨ ∃ i d, a = .move i d) :
     ∃ pp', (s.takeAction a).phase = .play pp' ∧ pp'.hist.length ≤ pp.hist.length + 1 := by
   rcases hmv with rfl | ⟨i, d, rfl⟩
